@@ -4,6 +4,7 @@ Property theorems and non-vacuity examples only; helper lemmas are in Lemmas/Str
 -/
 import StyluaModel.Lemmas.StrLit
 import StyluaModel.Lemmas.Long
+import StyluaModel.Generated.Decisions
 
 namespace StyluaModel.C04
 open StyluaModel.StrLit StyluaModel.StrVal
@@ -66,5 +67,37 @@ theorem C04_long_lone_cr_witness :
 
 example : TriviaLemmas.noLoneCR ['\r', '\n', 'x', '\n', '\r', '\n', 'y'] = true ∧
     rewriteLong ['\r', '\n'] ['\r', '\n', 'x', '\n', '\r', '\n', 'y'] = ['\r', '\n', 'x', '\r', '\n', '\r', '\n', 'y'] := by decide
+
+/-! ## the model's constants are the source's constants (translated on every run) -/
+
+def inRanges (rs : List (Nat × Nat)) (n : Nat) : Bool := rs.any fun r => decide (r.1 ≤ n) && decide (n ≤ r.2)
+
+/-- the two regular expressions `format_token` uses for quoted strings are the ones the scanner
+`StrLit.scan` was written for (a changed source regex breaks this obligation) -/
+theorem C04_regex_pinned :
+    Generated.stringRegex = "\\\\?([\"'])|\\\\([\\S\\s])" ∧
+    Generated.unnecessaryEscapesRegex = "^[^\\n\\r\"'0-9\\\\abfnrtuvxz]$" := by decide
+
+/-- **the escape class of the model is the one in the source**: for every character, `necessary`
+(the escapes whose backslash is kept) is membership in the negated class of UNNECESSARY_ESCAPES as
+the translator reads it from general.rs -/
+theorem C04_escape_class (c : Char) : necessary c = inRanges Generated.necessaryRanges c.toNat := by
+  have e : ∀ d : Char, (c == d) = decide (c.toNat = d.toNat) := by
+    intro d
+    by_cases h : c = d
+    · subst h; simp
+    · have : c.toNat ≠ d.toNat := fun hh => h (Char.toNat_inj.mp hh)
+      simp [h, this]
+  simp only [necessary, e, Char.isDigit, inRanges, Generated.necessaryRanges, List.any_cons, List.any_nil]
+  simp only [UInt32.le_iff_toNat_le, Char.toNat]
+  have k : ('\n'.val.toNat = 10) ∧ ('\r'.val.toNat = 13) ∧ ('"'.val.toNat = 34) ∧ ('\''.val.toNat = 39) ∧
+      ('0'.val.toNat = 48) ∧ ('9'.val.toNat = 57) ∧ ('\\'.val.toNat = 92) ∧ ('a'.val.toNat = 97) ∧ ('b'.val.toNat = 98) ∧
+      ('f'.val.toNat = 102) ∧ ('n'.val.toNat = 110) ∧ ('r'.val.toNat = 114) ∧ ('t'.val.toNat = 116) ∧ ('u'.val.toNat = 117) ∧
+      ('v'.val.toNat = 118) ∧ ('x'.val.toNat = 120) ∧ ('z'.val.toNat = 122) := by decide
+  obtain ⟨k1, k2, k3, k4, k5, k6, k7, k8, k9, k10, k11, k12, k13, k14, k15, k16, k17⟩ := k
+  rw [Bool.eq_iff_iff]
+  simp only [Bool.or_eq_true, Bool.and_eq_true, decide_eq_true_eq, Bool.or_false]
+  rw [k1, k2, k3, k4, k5, k6, k7, k8, k9, k10, k11, k12, k13, k14, k15, k16, k17]
+  omega
 
 end StyluaModel.C04
